@@ -135,6 +135,13 @@ func sync_simYield() {
 	simOps++
 	if simOps%simSliceOps == 0 {
 		simYields++
+		if simStallDen != 0 {
+			// with the execution-time fault on, the goroutine a spinner waits
+			// for may be asleep: spinning must cost virtual time too, or the
+			// clock (which only moves when nothing is runnable) never would
+			timeSleep(1000)
+			return
+		}
 		goyield()
 		return
 	}
